@@ -2,7 +2,8 @@
 
 Proof: lean/GIVerif/Props/C13.lean over the model lean/GIVerif/Model/EnumConst.lean.
 Tie: (1) translators gen_typenames / gen_enumconst re-read ast.type_names, the wrap chain of
-`_create_const` (TYPE_* constants, base, exponent), the `< 2` member rule, the statement shapes
+`_create_const` (TYPE_* constants, base, exponent), the statements computing `unaliased` and the
+body of `resolve_aliases`, the `< 2` member rule, the statement shapes
 of `common_prefix`, `_enum_common_prefix`, `_create_enum` and the lexer's identifier pattern;
 (2) correspondence of the whole path  symbols -> Transformer.parse -> MainTransformer ->
 IntrospectablePass -> GIRWriter -> GIR text -> ElementTree  with the model's `parseDecls` +
